@@ -111,13 +111,13 @@ prop(
     "C09",
     level="proof",
     design_ref="DESIGN.md section 3, C09",
-    groups=[(["./pipeline"], r"^(\(\*RetriableBatcher\)\.Out|\(\*Batch\)\.reset)$")],
+    groups=[(["./pipeline"], r"^(\(\*RetriableBatcher\)\.Out|\(\*Batch\)\.reset|\(\*Router\)\.(Stop|Fail|IsDeadQueueAvailable))$")],
     canaries=[("./pipeline", "replay/C09/zz_replay_c09_test.go", "TestVerifReplayC09")],
     claim=(
         "RetriableBatcher.Out, for every success/failure sequence of the send function (outFn returns any error or nil on every call; loop invariant, no bound) and every retry count including 0 and negative: "
         "it returns normally only right after a send that returned nil; it gives up at most once, only with a non-negative retry count and only after strictly more retries than configured; "
         "on giving up the error callback receives exactly the batch's events once, and the batch is emptied and marked in-dead-queue iff a dead queue is available, otherwise left untouched so the main output commits it. "
-        "Batch.reset empties the batch (frame checked)."
+        "Batch.reset empties the batch (frame checked). Router.Fail hands a failed event to the dead queue iff one is configured (never to the main output), and Router.Stop stops the dead queue only after the main output has stopped, so a batch that exhausts its retries during shutdown still finds a dead queue that accepts it."
     ),
     undecided=[
         "which of the two batchers (main / dead queue) commits first, and a dead-queue batcher stopped before the main output's last retries (Router.Stop order): interleavings, not decided",
@@ -338,7 +338,7 @@ prop(
     "C17",
     level="other",
     design_ref="DESIGN.md section 3, C17",
-    groups=[(["./plugin/action/mask"], r"^\(\*Mask\)\.(maskValue|maskSection)$")],
+    groups=[(["./plugin/action/mask"], r"^\(\*Mask\)\.(maskValue|maskSection)$"), (["./cfg"], r"^VerifyGroupNumbers$")],
     canaries=[("./plugin/action/mask", "replay/C17/zz_replay_c17_test.go", "TestVerifReplayC17Tail")],
     known_canaries=[("./plugin/action/mask", "replay/C17/zz_replay_c17_test.go", "TestVerifReplayC17Order")],
     claim=(
@@ -364,7 +364,8 @@ prop(
             (["./plugin/action/convert_utf8_bytes"], r"^\(\*Plugin\)\.convert$"),
             (["./plugin/action/hash/normalize"], r"^(hasPattern|\(\*tokenizer\)\.(nextToken|processOpenBracket|processCloseBracket|processQuotes)|\(\*tokenNormalizer\)\.normalizeByTokenizer)$"),
             (["./cfg/substitution"], r"^\(\*(CutFilter|TrimToFilter|RegexFilter)\)\.Apply$"),
-            (["./cfg/matchrule"], r"^\(\*Rule\)\.match$")],
+            (["./cfg/matchrule"], r"^\(\*Rule\)\.match$"),
+            (["./cfg"], r"^VerifyGroupNumbers$")],
     canaries=[("./plugin/action/mask", "replay/C17/zz_replay_c17_test.go", "TestVerifReplayC17Tail"), ("./plugin/input/k8s", "replay/C13/zz_replay_c13_test.go", "TestVerifReplayC13"),
               ("./cfg/substitution", "replay/C13/trimto_empty_cutset_test.go", "TestVerifTrimToEmptyCutset")],
     known_canaries=[("./plugin/action/mask", "replay/C17/zz_replay_c17_test.go", "TestVerifReplayC17Order")],
